@@ -61,16 +61,27 @@ func TestProbeEchoTailSharesRead(t *testing.T) {
 // transport read. The buffer then holds a delimiter and an id but no </rpc>: it is filed as the reply
 // to request 101 and the call returns the echo of the hello.
 func TestProbeHelloEchoSharesReadWithFirstRequest(t *testing.T) {
+	big := "<config><motd>" + strings.Repeat("abcdefghij", 600) + "</motd></config>"
 	for _, ver := range []string{"1.0", "1.1"} {
-		res := RunSession(Session{Profile: "probe", Version: ver, Echo: true, NoEchoMark: true, HoldHelloTail: 3,
-			Seg: devsim.Seg{Mode: "fixed", Size: 4096},
-			Calls: []Call{
-				{Kind: "edit-config", Store: "candidate", Arg: "<config><motd>" + strings.Repeat("abcdefghij", 600) + "</motd></config>",
-					Plan: "now", Nonce: "nx-probe-a", Body: "ok"},
-				{Kind: "get", Arg: "<a/>", Plan: "now", Nonce: "nx-probe-b", Body: "data", Fill: "x"},
-			}})
-		if res.Verdict != mon.Held {
-			t.Errorf("v=%s: %s %s\n%s", ver, res.Verdict, res.Key, res.Detail)
+		for _, arg := range []string{big, "<config><a/></config>"} { // request echo larger / smaller than a read
+			for _, seg := range []devsim.Seg{{Mode: "fixed", Size: 4096}, {Mode: "whole"}, {Mode: "fixed", Size: 100}, {Mode: "fixed", Size: 150}} {
+				for _, hold := range []int{1, 3, 6, 7, 40} {
+					for _, after := range []int{0, 3} { // reply before / after the echo of the trailing return
+						for _, plan := range []string{"now", "late"} {
+							res := RunSession(Session{Profile: "probe", Version: ver, Echo: true, NoEchoMark: true, HoldHelloTail: hold, Seg: seg,
+								Calls: []Call{
+									{Kind: "edit-config", Store: "candidate", Arg: arg, Plan: plan, Release: "with-next-before", AfterWrites: after,
+										Nonce: "nx-probe-a", Body: "ok"},
+									{Kind: "get", Arg: "<a/>", Plan: "now", Nonce: "nx-probe-b", Body: "data", Fill: "x"},
+								}})
+							if res.Verdict != mon.Held {
+								t.Errorf("v=%s arg=%d seg=%s/%d hold=%d after=%d plan=%s: %s %s\n%s", ver, len(arg), seg.Mode, seg.Size, hold, after, plan,
+									res.Verdict, res.Key, res.Detail)
+							}
+						}
+					}
+				}
+			}
 		}
 	}
 }
